@@ -373,12 +373,15 @@ impl ObjectStream {
         if index >= self.offsets.len() {
             err!(PdfError::ObjStmOutOfBounds {index, max: self.offsets.len()});
         }
-        let start = self.inner.info.first + self.offsets[index];
+        // (the offsets come from the file and may be anything)
+        let position = |offset: usize| self.inner.info.first.checked_add(offset)
+            .ok_or_else(|| PdfError::Other { msg: format!("object stream offset {} out of range", offset) });
+        let start = position(self.offsets[index])?;
         let data = self.inner.data(resolve)?;
         let end = if index == self.offsets.len() - 1 {
             data.len()
         } else {
-            self.inner.info.first + self.offsets[index + 1]
+            position(self.offsets[index + 1])?
         };
 
         Ok((data, start..end))
